@@ -3,7 +3,7 @@
 Model: lean/NumqiModel/SpF2.lean.  Theorems: lean/NumqiProps/C09.lean.
 Correspondence: exact (bit strings / integers), no floats anywhere.
 """
-import itertools, os, subprocess
+import itertools, os, sys
 from concurrent.futures import ProcessPoolExecutor
 import numpy as np
 from . import common
@@ -275,8 +275,13 @@ def gen_ops(ctx):
     for i in range(60 if quick else 600):
         n = 1 + i % 8
         seed = ctx.np_seed * 1000 + i
-        t, M = numqi.random.rand_SpF2(n, return_kind='int_tuple-matrix', seed=seed)
-        ops += [f'C09 from {n} {tstr(t)}', f'C09 to {n} {mstr(M)}', f'C09 issp {n} {mstr(M)}']
+        tm = guarded(lambda: numqi.random.rand_SpF2(n, return_kind='int_tuple-matrix', seed=seed))
+        if isinstance(tm, str):
+            continue  # reported by the probe
+        t, M = tm
+        if all(0 <= int(x) < b for x, b in zip(t, bases(n))):
+            ops.append(f'C09 from {n} {tstr(t)}')
+        ops += [f'C09 to {n} {mstr(M)}', f'C09 issp {n} {mstr(M)}']
     return ops
 
 
@@ -298,7 +303,7 @@ def correspondence(ctx):
     for n in (1, 2):
         check_count(n, tuples_through_both(ctx, n, range(order(n))), order(n))
     if ctx.quick():
-        stride = 1009  # prime, coprime to every base: the sample runs through all residues of every digit
+        stride = 211  # prime, coprime to every base: the sample runs through all residues of every digit
         idxs = list(range(ctx.seed % stride, order(3), stride))
         check_count(3, tuples_through_both(ctx, 3, idxs), len(idxs))
         ctx.extra['exhaustive_domain'] = f'all tuples n=1 (6), n=2 (720); n=3: {len(idxs)} tuples (every {stride}-th index); all ordered pairs of vectors n<=3 for find_transvection'
@@ -334,7 +339,7 @@ def brute_sp_count(n):
     return cnt
 
 
-def probe(ctx):
+def _probe_body(ctx):
     """direct evaluation of the property statement on the real code, independent of the model"""
     import numqi
     sp = numqi.group.spf2
@@ -362,8 +367,8 @@ def probe(ctx):
                 ctx.fail('from-to-roundtrip', f'to_int_tuple(from_int_tuple({t})) = {back}', dict(op='roundtrip', n=n, int_tuple=list(t)))
             else:
                 ctx.probe_ok()
-            Inv = sp.inverse(M).astype(np.int64)
-            if not (np.array_equal((Mi @ Inv) % 2, I) and np.array_equal((Inv @ Mi) % 2, I)):
+            Inv = guarded(lambda: sp.inverse(M).astype(np.int64))
+            if isinstance(Inv, str) or not (np.array_equal((Mi @ Inv) % 2, I) and np.array_equal((Inv @ Mi) % 2, I)):
                 ctx.fail('inverse', f'inverse(from_int_tuple({t})) is not a two-sided inverse', dict(op='inverse', n=n, int_tuple=list(t)))
             else:
                 ctx.probe_ok()
@@ -432,24 +437,26 @@ def probe(ctx):
             ctx.fail('from-to-roundtrip', f'to_int_tuple(from_int_tuple({t})) = {back}', dict(op='roundtrip', n=n, int_tuple=list(t)))
         else:
             ctx.probe_ok()
-        Inv = sp.inverse(M).astype(np.int64)
-        if not (np.array_equal((Mi @ Inv) % 2, I) and np.array_equal((Inv @ Mi) % 2, I)):
+        Inv = guarded(lambda: sp.inverse(M).astype(np.int64))
+        if isinstance(Inv, str) or not (np.array_equal((Mi @ Inv) % 2, I) and np.array_equal((Inv @ Mi) % 2, I)):
             ctx.fail('inverse', f'inverse(from_int_tuple({t})) is not a two-sided inverse', dict(op='inverse', n=n, int_tuple=list(t)))
         else:
             ctx.probe_ok()
     for i in range(40 if ctx.quick() else 400):
         n = 1 + i % 8
         seed = ctx.np_seed * 1000 + 500000 + i
-        M = numqi.random.rand_SpF2(n, seed=seed)
-        t = numqi.random.rand_SpF2(n, return_kind='int_tuple', seed=seed)
-        ok = is_sp(M) and all(0 <= x < b for x, b in zip(t, bases(n))) and tuple(int(x) for x in sp.to_int_tuple(M)) == tuple(t)
-        if not ok:
+        def f():
+            M = numqi.random.rand_SpF2(n, seed=seed)
+            t = numqi.random.rand_SpF2(n, return_kind='int_tuple', seed=seed)
+            return is_sp(M) and all(0 <= x < b for x, b in zip(t, bases(n))) and tuple(int(x) for x in sp.to_int_tuple(M)) == tuple(t)
+        ok = guarded(f)
+        if ok is not True:
             ctx.fail('rand_SpF2', f'rand_SpF2(n={n}, seed={seed}) is not the symplectic matrix of its in-range tuple', dict(op='rand_SpF2', n=n, seed=seed))
         else:
             ctx.probe_ok(('rand', n, seed))
 
 
-def search(ctx, hints):
+def _search_body(ctx, hints):
     """evaluate the property on exactly the disagreeing inputs"""
     import numqi
     sp = numqi.group.spf2
@@ -473,6 +480,10 @@ def search(ctx, hints):
                 back = guarded(lambda: sp.to_int_tuple(M))
                 if isinstance(back, str) or tuple(int(x) for x in back) != tt:
                     ctx.fail('from-to-roundtrip', f'to_int_tuple(from_int_tuple({tt})) = {back}', dict(op='roundtrip', n=n, int_tuple=list(tt)))
+                Mi = M.astype(np.int64); I = np.eye(2 * n, dtype=np.int64)
+                Inv = guarded(lambda: sp.inverse(M).astype(np.int64))
+                if isinstance(Inv, str) or not (np.array_equal((Mi @ Inv) % 2, I) and np.array_equal((Inv @ Mi) % 2, I)):
+                    ctx.fail('inverse', f'inverse(from_int_tuple({tt})) is not a two-sided inverse', dict(op='inverse', n=n, int_tuple=list(tt)))
         elif k in ('to', 'inv'):
             M = marr(t[3])
             if is_sp(M):
@@ -489,3 +500,63 @@ def search(ctx, hints):
             y = sp.transvection(x, *hs)
             if not np.array_equal(sp.transvection(y, *hs[::-1]), x):
                 ctx.fail('transvection', f'transvections {t[4]} not undone by the reversed list on {t[3]}', dict(op='transvection', n=n, x=t[3], hs=t[4]))
+
+
+def probe(ctx):
+    """the probe must end in a verdict even when the implementation raises somewhere unexpected: such an exception is
+    itself reported as a failure of the property on the input being evaluated"""
+    try:
+        _probe_body(ctx)
+    except Exception as e:  # noqa: BLE001
+        import traceback
+        tb = traceback.extract_tb(e.__traceback__)
+        where = [f'{os.path.basename(fr.filename)}:{fr.lineno} {fr.name}' for fr in tb][-4:]
+        ctx.fail('implementation-raised', f'{type(e).__name__}: {e} at {where}', dict(op='probe', exception=repr(e), where=where))
+
+
+def search(ctx, hints):
+    try:
+        _search_body(ctx, hints)
+    except Exception as e:  # noqa: BLE001
+        ctx.fail('implementation-raised', f'{type(e).__name__}: {e} during the failing-input search', dict(op='search', exception=repr(e)))
+
+
+def replay(ctx, payload):
+    """re-evaluate the property on exactly the recorded failing input"""
+    import numqi
+    sp = numqi.group.spf2
+    r = payload.get('replay', {})
+    op = r.get('op')
+    hints = []
+    if op == 'find_transvection':
+        hints = [dict(op=f"C09 find {r['n']} {r['v0']} {r['v1']}")]
+    elif op in ('from_int_tuple', 'roundtrip', 'inverse') and 'int_tuple' in r:
+        hints = [dict(op=f"C09 from {r['n']} {tstr(r['int_tuple'])}")]
+    elif op in ('inverse', 'to_int_tuple') and 'mat' in r:
+        hints = [dict(op=f"C09 to {r['n']} {r['mat']}")]
+    elif op == 'transvection' and 'hs' in r:
+        hints = [dict(op=f"C09 tv {r['n']} {r['x']} {r['hs']}")]
+    elif op == 'rand_SpF2':
+        n, seed = r['n'], r['seed']
+        def f():
+            M = numqi.random.rand_SpF2(n, seed=seed)
+            t = numqi.random.rand_SpF2(n, return_kind='int_tuple', seed=seed)
+            return is_sp(M) and all(0 <= x < b for x, b in zip(t, bases(n))) and tuple(int(x) for x in sp.to_int_tuple(M)) == tuple(t)
+        if guarded(f) is not True:
+            ctx.fail('rand_SpF2', f'rand_SpF2(n={n}, seed={seed}) is not the symplectic matrix of its in-range tuple', r)
+    if hints:
+        search(ctx, hints)
+    elif op != 'rand_SpF2':
+        probe(ctx)
+    hit = [f for f in ctx.failures if f['key'] == payload.get('key')] or ctx.failures
+    if hit:
+        print(f"replay: {payload.get('key')} still fails: {hit[0]['what']}")
+        print(f"VIOLATION property={ctx.pid} replay={_replay_path()}")
+        return 1
+    print(f"replay: {payload.get('key')} no longer fails ({ctx.probe_evals} evaluations)")
+    return 0
+
+
+def _replay_path():
+    a = sys.argv
+    return a[a.index('--replay') + 1] if '--replay' in a and a.index('--replay') + 1 < len(a) else ''
